@@ -308,6 +308,19 @@ def run(pid, tier, seed, spec):
                 ctx.broken.append(Broken('correspondence', 'pre-build generator failed: %s' % e, traceback.format_exc()))
         log = build(ctx, [p + 'o' for p in spec['props']] + spec.get('extra_targets', []), spec.get('timeout', 1500))
         audit(ctx, spec['props'], log)
+        if spec.get('finding_props'):
+            # theorems that characterise the behaviour of an OPEN known finding ("what the defective code returns"): they are proof obligations only
+            # while the finding exists.  If they stop compiling (somebody repaired the code) that is not an alarm; it is reported in the evidence.
+            sub = Ctx(pid, tier, seed)
+            log2 = build(sub, [p + 'o' for p in spec['finding_props']], spec.get('timeout', 1500))
+            if sub.broken:
+                ctx.notes.append('known-finding theorems no longer compile (finding repaired or model changed; not an alarm): ' + '; '.join(b.what for b in sub.broken))
+                ctx.known_theorems_gone = [b.what for b in sub.broken]
+            else:
+                main_thms, main_ax = list(ctx.theorems), set(ctx.axioms)
+                audit(ctx, spec['finding_props'], log2)
+                ctx.theorems = main_thms + ctx.theorems
+                ctx.axioms = main_ax | set(ctx.axioms)
         if tier == 'thorough' and not ctx.broken and spec.get('coqchk', True):
             mods = ' '.join('XV.' + p[:-2].replace('/', '.') for p in spec['props'])
             # the Interval library and what it depends on (Flocq, Coquelicot, mathcomp, parts of the stdlib) are loaded without re-checking
